@@ -1,6 +1,7 @@
 import HcipyVerif.Lemmas.NearField
 import HcipyVerif.Lemmas.FourierLinkC04
 import HcipyVerif.Lemmas.NearFieldExec
+import HcipyVerif.Lemmas.NearFieldTensor
 
 /-!
 # C04 — near-field propagators are linear, passive, adjoint-backward and additive
@@ -622,6 +623,67 @@ theorem propagate_additive (hk : p.kind = .fresnel) (hx : p.sx = 1) (hy : p.sy =
     nativeAt_withZ_fresnel hk, nativeAt_withZ_fresnel hk, nativeAt_withZ_fresnel hk]
   exact fresnelAt_mul p z₁ z₂ _
 
+/-! ### what the driver prints for a transfer-function sample *is* the sample of `modelD`
+
+The harness turns the driver's answer to `tfq` into a complex number by `mean(exp(2πi·turns))` (Fresnel) or
+`mean(exp(2πi z √r))` / `exp(-2π·evz·√(-r))` (angular spectrum) and compares it with the array the real filter
+multiplies with.  These theorems say that this very number is `sampledTF` (hence `modelD` on the
+transfer-function branch, `modelD_of_tf`). -/
+
+theorem exp_turns_frac (t : ℚ) :
+    cexp (((2 * Real.pi * ((frac t : ℚ) : ℝ) : ℝ) : ℂ) * I) = cexp (((2 * Real.pi * ((t : ℚ) : ℝ) : ℝ) : ℂ) * I) := by
+  unfold frac
+  have h : (((2 * Real.pi * ((t - (t.floor : ℚ) : ℚ) : ℝ) : ℝ) : ℂ) * I)
+      = ((2 * Real.pi * (t : ℝ) : ℝ) : ℂ) * I - (t.floor : ℂ) * (2 * Real.pi * I) := by
+    push_cast; ring
+  rw [h, Complex.exp_sub, Complex.exp_int_mul_two_pi_mul_I, div_one]
+
+/-- Fresnel: `sampledTF` is the mean of `exp(2πi t)` over the phases `fresnelSubTurns` the driver prints. -/
+theorem sampledTF_fresnel_eq_turns (p : Params) (hk : p.kind = .fresnel) (hn : p.n ≠ 0) (hl : p.lam ≠ 0)
+    (iy ix : ℕ) :
+    sampledTF p iy ix
+      = listMean ((fresnelSubTurns p ix iy).map fun t => cexp (((2 * Real.pi * ((t : ℚ) : ℝ) : ℝ) : ℂ) * I)) := by
+  unfold sampledTF fresnelSubTurns
+  rw [List.map_map]
+  congr 1
+  apply List.map_congr_left
+  rintro ⟨a, b⟩ _
+  have hnat : nativeAt p = fresnelAt p := by unfold nativeAt; rw [hk]
+  rw [hnat]
+  simp only [Function.comp]
+  rw [exp_turns_frac]
+  exact model_fresnelTurns p a b hn hl
+
+/-- Angular spectrum: the sample at frequency `ν` from the radicand the driver prints — `exp(2πi z √r)` for a
+propagating wave (`r ≥ 0`), `exp(-2π |z| √(-r))` (`evz = |z|`) for an evanescent one. -/
+theorem angularAt_of_radicand (p : Params) (hl : p.lam ≠ 0) (ν : ℚ × ℚ) :
+    angularAt p ν = if 0 ≤ radicand p ν.1 ν.2
+      then cexp (((2 * Real.pi * Real.sqrt ((radicand p ν.1 ν.2 : ℚ) : ℝ) * (p.z : ℝ) : ℝ) : ℂ) * I)
+      else cexp (((-(2 * Real.pi * Real.sqrt (-((radicand p ν.1 ν.2 : ℚ) : ℝ)) * ((evanescentZ p : ℚ) : ℝ)) : ℝ) : ℂ)) := by
+  have hr := model_radicand p ν.1 ν.2 hl
+  have h2pi : (0 : ℝ) ≤ 2 * Real.pi := by positivity
+  unfold angularAt waveK
+  split_ifs with h
+  · have hR : (0 : ℝ) ≤ ((radicand p ν.1 ν.2 : ℚ) : ℝ) := by exact_mod_cast h
+    have hk : (2 * Real.pi * (ν.1 : ℝ)) ^ 2 + (2 * Real.pi * (ν.2 : ℝ)) ^ 2
+        ≤ (2 * Real.pi * (p.n : ℝ) / (p.lam : ℝ)) ^ 2 := by
+      have : 0 ≤ (2 * Real.pi) ^ 2 * ((radicand p ν.1 ν.2 : ℚ) : ℝ) := by positivity
+      linarith
+    rw [angularD_of_propagating hk, hr, Real.sqrt_mul (sq_nonneg _), Real.sqrt_sq h2pi]
+  · have hR : ((radicand p ν.1 ν.2 : ℚ) : ℝ) < 0 := by exact_mod_cast not_le.mp h
+    have hk : ¬ (2 * Real.pi * (ν.1 : ℝ)) ^ 2 + (2 * Real.pi * (ν.2 : ℝ)) ^ 2
+        ≤ (2 * Real.pi * (p.n : ℝ) / (p.lam : ℝ)) ^ 2 := by
+      have : (2 * Real.pi) ^ 2 * ((radicand p ν.1 ν.2 : ℚ) : ℝ) < 0 :=
+        mul_neg_of_pos_of_neg (by positivity) hR
+      intro hle
+      linarith
+    have hneg : (2 * Real.pi * (ν.1 : ℝ)) ^ 2 + (2 * Real.pi * (ν.2 : ℝ)) ^ 2
+        - (2 * Real.pi * (p.n : ℝ) / (p.lam : ℝ)) ^ 2 = (2 * Real.pi) ^ 2 * (-((radicand p ν.1 ν.2 : ℚ) : ℝ)) := by
+      linarith
+    rw [angularD_of_evanescent hk, hneg, Real.sqrt_mul (sq_nonneg _), Real.sqrt_sq h2pi]
+    unfold evanescentZ
+    rw [ratAbs_eq_abs, Rat.cast_abs]
+
 end exec
 
 /-- The hypotheses of the `propagate_*` theorems are satisfiable together: an 8×6 Fresnel propagator with
@@ -635,6 +697,97 @@ example : ∃ p : Params, padOK p = true ∧ p.kind = .fresnel ∧ p.sx = 1 ∧ 
 example : ∃ p : Params, padOK p = true ∧ cutout p = some (3, 9, 4, 12) ∧ impulseBranch p = false :=
   ⟨{ kind := .angular, nx := 8, ny := 6, dx := 1/4, dy := 1/4, lam := 1/16, z := -1/2, n := 1, qx := 1, qy := 1,
      sx := 2, sy := 2 }, by decide +kernel⟩
+
+/-! ## polarised wavefronts: Stokes-`I` power, matrix-valued transfer functions
+
+`Wavefront.total_power` of a Jones-matrix wavefront with an input Stokes vector is `stokesPower` — the sum over the
+grid of the executable polynomial `stokesI` (driver op `stokesI`, compared with `Wavefront.I` of the real input and
+output wavefronts) times the pixel weight.  `FourierFilter` with a tensor transfer function multiplies with the
+executable `matVec` (`field_dot`) and, backward, with `conjT conj` (`field_conjugate_transpose`) — driver op `mdot`,
+compared with those two hcipy functions; the harness recomputes `forward`/`backward` of the real filter with them. -/
+
+theorem filter_add_smul (P : FourierPair μ) (e : ι → μ) (D : μ → ℂ) (γ : ℂ) (u v : ι → ℂ) :
+    filter P e D (u + γ • v) = filter P e D u + γ • filter P e D v := by
+  have h := filter_linear P e D 1 γ u v
+  simpa using h
+
+/-- **Passivity in the Stokes-`I` form**: a Jones-matrix wavefront with a physical input Stokes vector
+(`0 ≤ S0`, `S1² + S2² + S3² ≤ S0²`, i.e. degree of polarisation `≤ 1`) does not gain total power when every
+component is filtered with `|D| ≤ 1` — although `I` mixes the components (`M13`, `M14` terms). -/
+theorem stokes_power_nonincreasing (P : FourierPair μ) {e : ι → μ} (he : Function.Injective e) {D : μ → ℂ}
+    (hD : ∀ m, ‖D m‖ ≤ 1) (w : ℝ) (hw : 0 ≤ w) (S : Fin 4 → ℝ) (hS0 : 0 ≤ S 0)
+    (hphys : S 1 ^ 2 + S 2 ^ 2 + S 3 ^ 2 ≤ S 0 ^ 2) (E : Fin 2 × Fin 2 → ι → ℂ) :
+    stokesPower w S (filterT P e D E) ≤ stokesPower w S E :=
+  stokesPower_contraction w hw S hS0 hphys (filter P e D) (filter_add_smul P e D)
+    (power_nonincreasing P he hD) E
+
+/-- The same with the hypothesis written as `S0 ≥ √(S1² + S2² + S3²)`. -/
+theorem stokes_power_nonincreasing_sqrt (P : FourierPair μ) {e : ι → μ} (he : Function.Injective e) {D : μ → ℂ}
+    (hD : ∀ m, ‖D m‖ ≤ 1) (w : ℝ) (hw : 0 ≤ w) (S : Fin 4 → ℝ)
+    (hS : Real.sqrt (S 1 ^ 2 + S 2 ^ 2 + S 3 ^ 2) ≤ S 0) (E : Fin 2 × Fin 2 → ι → ℂ) :
+    stokesPower w S (filterT P e D E) ≤ stokesPower w S E := by
+  have h0 : 0 ≤ S 0 := le_trans (Real.sqrt_nonneg _) hS
+  have h1 : S 1 ^ 2 + S 2 ^ 2 + S 3 ^ 2 ≤ S 0 ^ 2 := by
+    exact (Real.sqrt_le_left h0).mp hS
+  exact stokes_power_nonincreasing P he hD w hw S h0 h1 E
+
+/-- On the propagator the code builds (transfer-function branch; Fresnel or repaired angular spectrum). -/
+theorem propagate_stokes_power_nonincreasing (p : Params) (h : padOK p = true) (hb : impulseBranch p = false)
+    (Dir : Fin (my p) × Fin (mx p) → ℂ) (w : ℝ) (hw : 0 ≤ w) (S : Fin 4 → ℝ) (hS0 : 0 ≤ S 0)
+    (hphys : S 1 ^ 2 + S 2 ^ 2 + S 3 ^ 2 ≤ S 0 ^ 2) (E : Fin 2 × Fin 2 → Fin p.ny × Fin p.nx → ℂ) :
+    stokesPower w S (fun t => propagate p h Dir (E t)) ≤ stokesPower w S E :=
+  stokes_power_nonincreasing _ (cutoutEmb_injective p h) (norm_modelD_le_one hb Dir) w hw S hS0 hphys E
+
+/-- `stokesPhysical` (the decidable predicate the driver reports, over `ℚ`) is the hypothesis above. -/
+theorem stokesPhysical_iff (a b c d : ℚ) :
+    stokesPhysical a b c d = true ↔ 0 ≤ a ∧ b ^ 2 + c ^ 2 + d ^ 2 ≤ a ^ 2 := by
+  unfold stokesPhysical
+  simp only [Bool.and_eq_true, decide_eq_true_eq, pow_two]
+
+example : stokesPhysical 1 (1/2) (-1/4) (1/8) = true := by decide +kernel
+
+/-- The hypothesis matters: for the (unphysical) Stokes vector `(0, 1, 0, 0)` the form is `‖x‖² − ‖y‖²`, and
+blocking everything (`D = 0`, certainly `|D| ≤ 1`) *raises* it from `−1/2` to `0`. -/
+theorem stokes_power_unphysical_counterexample :
+    ∃ (P : FourierPair (Fin 1)) (D : Fin 1 → ℂ) (S : Fin 4 → ℝ) (E : Fin 2 × Fin 2 → Fin 1 → ℂ),
+      (∀ m, ‖D m‖ ≤ 1) ∧ stokesPower 1 S E < stokesPower 1 S (filterT P id D E) := by
+  refine ⟨FourierPair.idPair (Fin 1), fun _ => 0, ![0, 1, 0, 0], fun t _ => if t = (0, 1) then 1 else 0,
+    fun m => by simp, ?_⟩
+  simp [stokesPower, stokesI, filterT, filter, crop, mulD, pad, FourierPair.idPair]
+  norm_num
+
+/-- **Matrix-valued transfer function**: `backward` (conjugate transpose at every sample) is the exact adjoint
+of `forward`, for every family of matrices, every padding — vector fields of any length `n`. -/
+theorem filterM_adjoint {n : ℕ} (P : FourierPair μ) (e : ι → μ) (D : μ → Fin n → Fin n → ℂ)
+    (x y : Fin n → ι → ℂ) :
+    ∑ t, ip (y t) (filterM P e D x t) = ∑ t, ip (filterMBackward P e D y t) (x t) :=
+  filterM_adjoint_sum P e D x y
+
+/-- Jones-matrix fields (`field_dot(D, E)` is a matrix product at every sample): column by column. -/
+theorem filterM_adjoint_matrix_field {n k : ℕ} (P : FourierPair μ) (e : ι → μ) (D : μ → Fin n → Fin n → ℂ)
+    (x y : Fin n → Fin k → ι → ℂ) :
+    ∑ l, ∑ t, ip (y t l) (filterM P e D (fun j => x j l) t)
+      = ∑ l, ∑ t, ip (filterMBackward P e D (fun j => y j l) t) (x t l) :=
+  Finset.sum_congr rfl fun l _ => filterM_adjoint_sum P e D (fun j => x j l) (fun j => y j l)
+
+/-- The product at one sample is the matrix–vector product, the backward matrix the conjugate transpose. -/
+theorem filterM_pointwise {n : ℕ} (D : Fin n → Fin n → ℂ) (v : Fin n → ℂ) :
+    matVec D v = Matrix.mulVec (Matrix.of D) v ∧
+      Matrix.of (conjT (fun z => conj z) D) = (Matrix.of D).conjTranspose :=
+  ⟨matVec_eq_mulVec D v, conjT_eq_conjTranspose D⟩
+
+/-- A scalar transfer function is the special case `D m = d m · 1`. -/
+theorem filterM_of_scalar {n : ℕ} (P : FourierPair μ) (e : ι → μ) (d : μ → ℂ) (x : Fin n → ι → ℂ) (t : Fin n) :
+    filterM P e (fun m i j => if i = j then d m else 0) x t = filter P e d (x t) :=
+  filterM_scalar P e d x t
+
+/-- Hypothesis-free, with the executable cut-out: the real `FourierFilter(grid, tensor tf, q)` on the internal
+grid `my p × mx p` of the model. -/
+theorem filterM_adjoint_exec {n : ℕ} (p : Params) (h : padOK p = true)
+    (D : Fin (my p) × Fin (mx p) → Fin n → Fin n → ℂ) (x y : Fin n → Fin p.ny × Fin p.nx → ℂ) :
+    ∑ t, ip (y t) (filterM (dftPair2 (my p) (mx p) (my_pos h) (mx_pos h)) (cutoutEmb p h) D x t)
+      = ∑ t, ip (filterMBackward (dftPair2 (my p) (mx p) (my_pos h) (mx_pos h)) (cutoutEmb p h) D y t) (x t) :=
+  filterM_adjoint_sum _ _ D x y
 
 /-! ### one axis (`fft` / `ifft`, `c = M`) -/
 
